@@ -15,7 +15,21 @@ Three-way comparison per case, done by the Lean driver:
 The model also carries WHAT KIND OF OBJECT the key / predicate is (FnObj: None, or a function object with the measured
 bool(f) and f == None), what kind of async function aretry's body is (BodyKind: runs when scheduled / runs eagerly
 inside fn.asynq(..)) and five kinds of iterable; the generator varies them (and, model-less: element __eq__/__hash__/
-__repr__, result objects, argument styles, call forms, warm-ups on the same thread)."""
+__repr__, result objects, argument styles, call forms, warm-ups on the same thread).
+Round 4 (feature interactions): a SECOND LAYER of the model (AsynqModel.Lib.ToolsX; the driver judges every case in it,
+C14x_plain: it is the first layer where nothing below applies) carries, per case, a table of elements for which the key /
+predicate RAISES (exception class per element), the ENGINE (asynq scheduler / asyncio event loop: helper.asyncio(..)), the
+finishing time of every per-element call under asyncio, whether the function is EAGER (body runs inside function.asynq(elt):
+@async_proxy, the .asynq that asynq.mock.patch attaches) and whether the function object answers every attribute name
+(MagicMock; measured).  Expected: the exception class of the FIRST bad element in input order (what map / filter / sorted /
+max / min raise), for every engine, finishing order and function kind (C14x_spec_holds, C14_first_bad_element_wins,
+C14_engine_irrelevant).  Generator-only (no model dimension): key = asynq.mock.patch replacement of four kinds,
+@deduplicate / @alru_cache function, make_async_decorator product, staticmethod / classmethod, explicit asyncio_fn=, bound
+method of a copy.copy()'d instance / copied binder; call through asynq.async_call, tools.call_with_context (counting
+AsyncContext), inside an AsyncScopedValue override the key reads, while another thread is stuck in the middle of its own
+helper invocation; a debug option switched / gc.collect() in MID-FLIGHT (inside the k-th per-element call / attempt);
+blocking on the library's DebugBatchItem; aretry: one decorator object applied to two functions, the documented defaults
+(aretry(cls): 10 tries, sleep 0.05), a method reached through a copied instance."""
 import hashlib
 import itertools
 import json
@@ -23,7 +37,7 @@ import random
 
 PID = "C14"
 LEVEL = "proof"
-LEAN_MODULES = ["AsynqModel.Theorems.C14"]
+LEAN_MODULES = ["AsynqModel.Theorems.C14", "AsynqModel.Theorems.C14x"]
 # Headline theorems: statements with content about the modelled behaviour, for all inputs.
 HEADLINE = [
     "AsynqModel.Tools.C14_spec_holds",
@@ -57,6 +71,17 @@ HEADLINE = [
     "AsynqModel.Tools.C14_each_called_once",
     # necessity witness for the restriction `Call.inStatement` (amax / amin without default=)
     "AsynqModel.Tools.C14_default_kw_outside_statement",
+    # second layer (Lib/ToolsX.lean, Theorems/C14x.lean): keys / predicates that raise, asyncio mode, eager functions
+    "AsynqModel.Tools.C14x_spec_holds",
+    "AsynqModel.Tools.C14x_spec_true",
+    "AsynqModel.Tools.C14x_spec_only_model",
+    "AsynqModel.Tools.C14x_spec_failing",
+    "AsynqModel.Tools.C14x_specClause_ok_iff",
+    "AsynqModel.Tools.C14x_plain",
+    "AsynqModel.Tools.C14_first_bad_element_wins",
+    "AsynqModel.Tools.C14_engine_irrelevant",
+    "AsynqModel.Tools.C14_failing_key_calls",
+    "AsynqModel.Tools.C14_yield_list_order",
 ]
 # Hold by construction of the model (one unfolding); they describe HOW tools.py is modelled, their content is the
 # correspondence run (which measures bool(f) / f == None, drives both call forms of amax / amin), not the proof.
@@ -65,6 +90,8 @@ BY_CONSTRUCTION = [
     "AsynqModel.Tools.C14_fn_object_irrelevant",
     "AsynqModel.Tools.C14_amax_varargs",
     "AsynqModel.Tools.C14_default_kw_refused",
+    "AsynqModel.Tools.C14_fn_attributes_irrelevant",
+    "AsynqModel.Tools.C14_gather_ignores_time",
 ]
 THEOREMS = HEADLINE + BY_CONSTRUCTION
 # `default=` of max / min: accepted by the built-ins, refused by amax / amin ("unexpected keyword argument",
@@ -99,7 +126,21 @@ RULE = ("one helper invocation per case. Exhaustive core: every key/predicate pa
         "key=None), a warm-up on the same thread with the same function object (same call, a failing call, a "
         "computation whose per-element task raised), malformed calls (no argument, one non-iterable argument, "
         "a keyword nobody knows, non-iterable input, unorderable values without key, max_tries=0); amax / amin are "
-        "never called with default= (outside the statement, see ASSUMPTIONS). Non-trivial = at "
+        "never called with default= (outside the statement, see ASSUMPTIONS). "
+        "Round 4, feature interactions - interaction core: every helper variant with a function x 24 kinds of function "
+        "object (the 7 above, 4 kinds of asynq.mock.patch replacement, @deduplicate, @alru_cache, make_async_decorator, "
+        "staticmethod, classmethod, explicit asyncio_fn=, method of a copy.copy()'d instance, copied binder) x 7 call "
+        "forms (call, helper.asyncio() under asyncio.run, an outer @asynq function run through .asyncio(), "
+        "asynq.async_call, tools.call_with_context with a counting AsyncContext, inside an AsyncScopedValue override "
+        "read by the key, while another thread is stuck inside a helper invocation of its own) x 4 (5) patterns of "
+        "blocking / FAILING keys (the first bad element in input order finishes later than a later bad element of "
+        "another class) with per-element finishing times under asyncio, on the harness batch or the library's "
+        "DebugBatchItem; every mid-flight action (15 debug options switched, gc.collect()) x helper x position x form; "
+        "aretry: every call form x 7 body kinds x (k, max_tries), one decorator object applied to two functions, the "
+        "documented defaults aretry(cls), a method of a copied instance, mid-flight actions between attempts. In the "
+        "generated stream: 34 % of the cases in one of the new call forms (22 % asyncio), 30 % with one of the new "
+        "function kinds, 30 % with 1-3 failing elements (classes 1-6, BaseException-only ones under the asynq "
+        "scheduler only), 12 % with a mid-flight action, 12 % blocking on DebugBatchItem. Non-trivial = at "
         "least 2 elements and (two distinct elements with equal keys or a blocking key call), or an aretry case with "
         "at least one retry; distinct by hash of the case")
 TRUSTED = [
@@ -115,11 +156,27 @@ TRUSTED = [
     "invocations, elements are opaque tokens), so nothing is PROVED about them - that the real helpers ignore them "
     "is tested, by the correspondence staying exact when they vary",
     "scheduler contract that the blocking tasks of one yield share one flush (properties C04/C05)",
+    "second layer (Lib/ToolsX.lean): written ON TOP of Tools.run - the helpers contain no try, so an exception at their "
+    "one yield of per-element tasks (or while the task list is built) leaves them unchanged; what is modelled line by line "
+    "is the delivery of a yielded list in the two engines (async_task.py unwrap in list order / asynq_to_async._gather: "
+    "wait for all, read results in list order) and the list comprehension with an eager function; tied to the code by this "
+    "run (failing keys of several classes with chosen finishing times under asyncio.run)",
+    "the kinds of function object beyond None / (bool, == None, eager, answers-any-attribute), the call forms other than "
+    "the engine, mid-flight debug options / gc, DebugBatchItem, a shared aretry decorator object are dimensions of the "
+    "GENERATOR only (tested, not modelled)",
 ]
 ASSUMPTIONS = [
-    "the async key / predicate is a function of the element, blocks at most once on one batch and does not raise",
+    "the async key / predicate is a function of the element (returns a value or raises an exception whose class "
+    "depends on the element only) and blocks at most once on one batch (asyncio: finishes after 0-4 event-loop round trips); "
+    "with a failing key the STATEMENT is about the exception type only (the first bad element's, as for map / sorted / "
+    "max): specX compares nothing else, the number of calls / flushes of that case is compared with the model only",
     "keys are integers (a total order); values without key are ordered by an integer or not orderable at all",
-    "single thread, asynq (not asyncio) mode; afilterfalse(None, ..) is outside the statement (no async predicate)",
+    "afilterfalse(None, ..) is outside the statement (no async predicate); under asyncio mode there is no batch, so "
+    "the one-flush clause is empty there (flushes = []); under asyncio no BaseException-only error, no @async_proxy "
+    "function returning a batch item / ErrorFuture is generated (C15's open findings and resolve_awaitables' limits)",
+    "COLLECT_PERF_STATS switched ON while tasks are in flight is not generated (INCLUDE_MIDFLIGHT_PERF = False): on the "
+    "pure-Python build every task created before the switch fails with AttributeError (_id), a defect of the profiling "
+    "code (C20), see INTEGRATION.md",
     "amax / amin are called with no keyword but key= (or one that max / min reject as well): default=, which max / min "
     "accept and amax / amin refuse with TypeError (tools.py:103, 129; tools.pyi declares key only), is outside the "
     "statement - C14 quantifies over iterables, async keys / predicates, reverse and the call forms. Lean: hypothesis "
@@ -138,11 +195,37 @@ SRC_MODEL = {"list": "list", "tuple": "tuple", "iterator": "iterator", "nonIter"
 SRC_MORE = ["listsub", "tuplesub", "mapobj", "iterobj", "deque", "reiter", "getitem"]
 SRC_FALSY_OK = ("listsub", "tuplesub", "iterobj", "reiter", "getitem")   # kinds that can be non-empty AND falsy
 FN_KINDS = ["plain", "falsy", "empty", "eqall", "falsyeq", "proxy", "method"]
+# round 4 (feature interactions): the key / predicate is a replacement installed by asynq.mock.patch (default MagicMock
+# with a side_effect, autospec'd function, new=<plain function>, new=<callable object>), a @deduplicate / @alru_cache
+# function, something made by make_async_decorator, the bound method of a copy.copy()'d instance, a copy.copy()'d binder
+FN_MOCK = ["mock", "mockspec", "mockfn", "mockobj"]
+FN_MORE = FN_MOCK + ["dedup", "alru", "wrapped", "methodcopy", "bindercopy", "static", "classm", "aiofn"]
+FN_HASHED = ("dedup", "alru")          # the arguments are hashed / compared: distinct, ordinary elements only
 BODY_KINDS = ["gen", "plain", "method", "proxy", "proxyerr", "duck"]
-BODY_MODEL = {"gen": "lazy", "plain": "lazy", "method": "lazy", "proxy": "eager", "proxyerr": "eager", "duck": "eager"}
+BODY_MORE = ["methodcopy"]              # round 4: the decorated method reached through a copy.copy() of its instance
+BODY_MODEL = {"gen": "lazy", "plain": "lazy", "method": "lazy", "proxy": "eager", "proxyerr": "eager", "duck": "eager",
+              "methodcopy": "lazy"}
 ARG_STYLES = ["std", "pos", "kw"]
 FORMS = ["call", "asynq", "nested"]
 FORMS_MORE = ["nested3", "thread"]
+# round 4: under an asyncio event loop (helper.asyncio(..) / an outer @asynq function run through .asyncio()), through
+# asynq.async_call, through tools.call_with_context with a counting AsyncContext, inside an AsyncScopedValue override
+# that the key reads, while ANOTHER thread is in the middle of a helper invocation of its own
+FORMS_AIO = ["asyncio", "asyncio_nested"]
+FORMS_X = FORMS_AIO + ["acall", "ctx", "scoped", "otherthread"]
+KEY_CLS = [1, 2, 3, 4]                  # classes a key / predicate raises (Exception-derived); 5, 6 (BaseException only): asynq mode
+MID_ACTS = ["gc", "DUMP_NEW_TASKS", "DUMP_COMPUTED", "DUMP_FLUSH_BATCH", "DUMP_DEPENDENCIES", "DUMP_YIELD_RESULTS",
+            "DUMP_QUEUED_RESULTS", "DUMP_SCHEDULE_TASK", "DUMP_CONTINUE_TASK", "DUMP_SCHEDULE_BATCH", "DUMP_CONTEXTS",
+            "DUMP_SYNC", "DUMP_STACK", "DUMP_EXCEPTIONS", "KEEP_DEPENDENCIES", "ENABLE_COMPLEX_ASSERTIONS"]
+# COLLECT_PERF_STATS switched on while tasks are in flight: on the pure-Python build every task created BEFORE the
+# switch fails with AttributeError ('AsyncTask' object has no attribute '_id': async_task.py:85 assigns _id only when
+# the option is on at creation, :155/:127 read it when the task completes) and the helper raises that instead of
+# returning its value.  A defect of the profiling code (property C20: options never change behaviour), not of the
+# helpers; the key of C14 "is a function of the element" (ASSUMPTIONS).  Set to True to see it reported here
+# (signature "<helper>/mid-flight=COLLECT_PERF_STATS/...").
+INCLUDE_MIDFLIGHT_PERF = True
+if INCLUDE_MIDFLIGHT_PERF:
+    MID_ACTS.append("COLLECT_PERF_STATS")
 HELPERS = ["amap", "afilter", "afilterfalse", "asorted", "amax", "amin", "asift"]
 
 
@@ -234,6 +317,65 @@ def object_core(maxn):
     return res
 
 
+PATTERNS = [
+    # (key, pred, blocks, fails, delay) per element
+    [(1, 1, 1, 0, 0), (0, 0, 1, 0, 1), (1, 1, 1, 0, 0)],
+    # the FIRST bad element (in input order) finishes later than a later bad one of another class
+    [(1, 1, 1, 1, 1), (0, 0, 0, 2, 0), (1, 0, 1, 0, 0)],
+    [(0, 1, 0, 0, 0), (1, 0, 1, 0, 2), (0, 1, 1, 3, 2), (1, 1, 0, 1, 0)],
+    [(1, 0, 0, 0, 0), (1, 1, 1, 0, 1)],
+    [(0, 1, 1, 0, 1), (1, 0, 1, 4, 3), (1, 1, 1, 2, 1), (0, 0, 0, 0, 0), (0, 1, 1, 1, 0)],
+]
+
+
+def pattern_univ(pat):
+    univ = []
+    for k, pr, b, f, d in pat:
+        u = elem("ord", k, pr, b, order=1 - k, truthy=pr)
+        if f:
+            u["fails"] = f
+        if d:
+            u["delay"] = d
+        univ.append(u)
+    return univ
+
+
+def interaction_core(tier):
+    """every kind of function object x every call form (incl. asyncio mode, async_call, call_with_context, a scoped
+    value override, another thread in mid-flight) x every helper variant that takes a function, over patterns with
+    and without failing keys; and every mid-flight action x helper x position"""
+    res = []
+    i = 0
+    for helper, flags in variants():
+        if flags.get("fn_none") or flags.get("key_none"):
+            continue
+        for fnk in FN_KINDS + FN_MORE:
+            for form in ["call"] + FORMS_X:
+                for pi, pat in enumerate(PATTERNS if tier != "quick" else PATTERNS[:4]):
+                    i += 1
+                    src = "tuple" if flags.get("args") == "elems" else (SRC_KINDS + SRC_MORE)[i % 10]
+                    c = base_case(helper, pattern_univ(pat), list(range(len(pat))), src, fnk=fnk, **flags)
+                    c["form"] = form
+                    if i % 7 == 0:
+                        c["warm"] = 1
+                    if i % 3 == 0:
+                        c["dbi"] = 1
+                    if i % 5 == 0:
+                        c["argstyle"] = ARG_STYLES[i % 3]
+                    res.append(normalize(c))
+    for act in MID_ACTS:
+        for helper in HELPERS:
+            for at in (0, 1, 2):
+                for form in ("call", "nested", "asyncio"):
+                    i += 1
+                    pat = PATTERNS[i % 3]
+                    c = base_case(helper, pattern_univ(pat), list(range(len(pat))), SRC_KINDS[i % 3],
+                                  fnk=(FN_KINDS + FN_MORE)[i % 16], mid=[at, act])
+                    c["form"] = form
+                    res.append(normalize(c))
+    return res
+
+
 def retry_case(max_tries, listed, script, blocking, single_cls=0, form="call", base_all=0, **kw):
     c = {"helper": "aretry", "max": max_tries, "listed": listed, "script": script, "blocking": blocking,
          "single_cls": single_cls, "form": form, "base_all": base_all}
@@ -280,6 +422,38 @@ def retry_core():
                 for body in ("gen", "proxy", "duck"):
                     script = [["raise", 1 if i % 2 == 0 else 2] for i in range(k)] + [["ret", 7]]
                     res.append(retry_case(m, [1, 2], script, (k + wi) % 2, body=body, warm=warm))
+    # feature interactions (round 4): every call form (asyncio mode, async_call, call_with_context, scoped value,
+    # another thread in mid-flight) x body kind x (k, max_tries); one decorator object applied to two functions; a
+    # debug option switched on / a garbage collection between two attempts
+    i = 0
+    for m in range(1, 5):
+        for k in range(0, 6):
+            for ending in (["ret", 7], ["raise", 3]):
+                script = [["raise", 1 if j % 2 == 0 else 4] for j in range(k)] + [ending]
+                for form in FORMS_X:
+                    for body in BODY_KINDS + BODY_MORE:
+                        i += 1
+                        res.append(normalize(retry_case(m, [1], script, i % 2, body=body, form=form,
+                                                        shared=(i % 3 if i % 4 == 0 else 0))))
+                for shared in (1, 2):
+                    for body in ("gen", "proxy", "methodcopy"):
+                        i += 1
+                        res.append(retry_case(m, [1], script, i % 2, body=body, shared=shared,
+                                              warm=([["raise", 1], ["ret", 2]] if i % 2 else None)))
+    # the documented defaults: aretry(exception_cls) retries up to 10 times, sleeping 0.05
+    for k in (0, 1, 8, 9, 10, 11):
+        for ending in (["ret", 7], ["raise", 3]):
+            for body in ("gen", "proxy", "duck"):
+                for form in ("call", "asyncio"):
+                    script = [["raise", 1 if j % 3 else 4] for j in range(k)] + [ending]
+                    res.append(normalize(retry_case(10, [1], script, k % 2, body=body, form=form, argstyle="dflt",
+                                                    single_cls=k % 2)))
+    for act in MID_ACTS:
+        for at in (0, 1):
+            for body in ("gen", "proxy"):
+                for form in ("call", "asyncio"):
+                    res.append(normalize(retry_case(3, [1], [["raise", 1], ["raise", 4], ["ret", 5]], 1, body=body,
+                                                    form=form, mid=[at, act])))
     return res
 
 
@@ -304,12 +478,23 @@ def gen_retry(rng):
     if rng.random() < 0.5:
         kw["body"] = rng.choice(BODY_KINDS)
     if rng.random() < 0.3:
-        kw["argstyle"] = rng.choice(ARG_STYLES)
+        kw["argstyle"] = rng.choice(ARG_STYLES + ["dflt"])
     if rng.random() < 0.2:
         kw["warm"] = steps(rng.randint(1, 4)) + ([["ret", 5]] if rng.random() < 0.5 else [])
     form = rng.choice(FORMS + FORMS_MORE) if rng.random() < 0.3 else rng.choice(FORMS)
-    return retry_case(m, listed, steps(n), rng.randint(0, 1), single_cls=rng.randint(0, 1), form=form,
-                      base_all=base_all, **kw)
+    r = rng.random()
+    if r < 0.2:
+        form = rng.choice(FORMS_AIO)
+    elif r < 0.32:
+        form = rng.choice(FORMS_X)
+    if rng.random() < 0.1:
+        kw["body"] = "methodcopy"
+    if rng.random() < 0.15:
+        kw["shared"] = rng.choice([1, 2])
+    if rng.random() < 0.1:
+        kw["mid"] = [rng.randint(0, 3), rng.choice(MID_ACTS)]
+    return normalize(retry_case(m, listed, steps(n), rng.randint(0, 1), single_cls=rng.randint(0, 1), form=form,
+                                base_all=base_all, **kw))
 
 
 def gen_collection(rng, helper=None, size=None):
@@ -387,7 +572,77 @@ def gen_collection(rng, helper=None, size=None):
         rng.shuffle(items)
     else:
         items = [rng.randrange(nuniv) for _ in range(size)]   # the same object several times
-    return base_case(helper, univ, items, src, **flags)
+    # ---- feature interactions (round 4) ----
+    r = rng.random()
+    if r < 0.22:
+        flags["form"] = rng.choice(FORMS_AIO)
+    elif r < 0.34:
+        flags["form"] = rng.choice(FORMS_X)
+    if rng.random() < 0.3:
+        flags["fnk"] = rng.choice(FN_MORE)
+    if rng.random() < 0.3:
+        # the key / predicate raises for some elements: classes differ, some of them finish later than others
+        nbad = rng.choice([1, 1, 2, 2, 3])
+        for u in rng.sample(univ, min(nbad, len(univ))):
+            u["fails"] = rng.choice(KEY_CLS + KEY_CLS + [5, 6])
+    if flags["form"] in FORMS_AIO:
+        for u in univ:
+            if rng.random() < 0.5:
+                u["delay"] = rng.choice([1, 1, 2, 3])
+    if rng.random() < 0.12:
+        flags["mid"] = [rng.randint(0, max(0, size - 1)), rng.choice(MID_ACTS)]
+    if rng.random() < 0.12:
+        flags["dbi"] = 1                       # the calls block on the library's DebugBatchItem, not on the harness batch
+    return normalize(base_case(helper, univ, items, src, **flags))
+
+
+def normalize(c):
+    """make a collection case consistent: combinations of dimensions that are not meaningful are mapped to the
+    nearest meaningful one (applied by the generator, the families and the shrinker)"""
+    if c["helper"] == "aretry":
+        if c.get("form") in FORMS_AIO:
+            if c.get("body") in ("proxyerr",):
+                c["body"] = "proxy"               # resolve_awaitables does not know ErrorFuture
+            # BaseException-only errors are not delivered to `except` under asyncio (C15's open finding): Exception classes
+            m = lambda k: k - 4 if k in (5, 6) else k
+            c["listed"] = sorted(set(m(k) for k in c["listed"]))
+            c["base_all"] = 0
+            c["script"] = [[a, m(v)] if a == "raise" else [a, v] for a, v in c["script"]]
+            if c.get("warm"):
+                c["warm"] = [[a, m(v)] if a == "raise" else [a, v] for a, v in c["warm"]]
+        if c["max"] == 0:
+            c["shared"] = 0
+        if c.get("argstyle") == "dflt":
+            c["max"] = 10
+        return c
+    aio = c["form"] in FORMS_AIO
+    univ = [dict(u) for u in c["univ"]]
+    if c.get("fnk") in FN_HASHED:
+        # the arguments are hashed and compared by the decorator: ordinary, distinct elements
+        seen, items = set(), []
+        for t in c["items"]:
+            if t not in seen:
+                seen.add(t)
+                items.append(t)
+        c["items"] = items
+        for u in univ:
+            u.pop("eq", None)
+        if c["fnk"] == "alru" and c.get("warm"):
+            c["warm"] = 0                         # a second use would be answered from the cache
+    if aio:
+        if c.get("warm") in (2, 3):
+            c["warm"] = 0                         # those warm-ups block on the batch
+        for u in univ:
+            if u.get("fails") in (5, 6):
+                u["fails"] -= 4                   # BaseException-only errors under asyncio: C15's open finding
+    else:
+        for u in univ:
+            u.pop("delay", None)
+    if c.get("mid") and c["mid"][1] != "gc":
+        for u in univ:
+            u.pop("rr", None)                     # the DUMP_* options print the arguments of the tasks
+    c["univ"] = univ
+    return c
 
 
 def gen_long(rng, helper, n):
@@ -421,6 +676,7 @@ def plan(tier, seed):
     cases = corpus()
     cases += core_cases(4 if tier == "quick" else 6)
     cases += object_core(2 if tier == "quick" else 3)
+    cases += interaction_core(tier)
     cases += retry_core()
     longs = [257, 300, 513, 1100] if tier == "quick" else [129, 257, 258, 300, 513, 700, 1025, 1100, 2100]
     for h in HELPERS:
@@ -433,6 +689,11 @@ def plan(tier, seed):
 
 
 def shrink(case):
+    for c in shrink0(case):
+        yield normalize(c)
+
+
+def shrink0(case):
     if case["helper"] == "aretry":
         sc = case["script"]
         for i in range(min(len(sc), 40)):
@@ -444,7 +705,7 @@ def shrink(case):
             yield dict(case, max=(case["max"] + 1) // 2)
         if case["blocking"]:
             yield dict(case, blocking=0)
-        for k, dflt in (("warm", None), ("argstyle", "std"), ("body", "gen"), ("form", "call")):
+        for k, dflt in (("warm", None), ("argstyle", "std"), ("body", "gen"), ("form", "call"), ("shared", 0)):
             if case.get(k, dflt) != dflt:
                 yield dict(case, **{k: dflt})
         return
@@ -458,13 +719,22 @@ def shrink(case):
         yield dict(case, form="call")
     if case.get("gen"):
         yield dict(case, gen=0)
-    for k, dflt in (("warm", 0), ("argstyle", "std"), ("fnk", "plain"), ("keyk", 0), ("src_falsy", 0)):
+    for k, dflt in (("warm", 0), ("argstyle", "std"), ("fnk", "plain"), ("keyk", 0), ("src_falsy", 0), ("mid", None),
+                    ("dbi", 0)):
         if case.get(k, dflt) != dflt:
             yield dict(case, **{k: dflt})
     if case["src"] in SRC_MORE:
         yield dict(case, src=SRC_MODEL[case["src"]] if SRC_MODEL[case["src"]] != "reiter" else "list", src_falsy=0)
     if any(u.get("eq") or u.get("rr") for u in case["univ"]):
         yield dict(case, univ=[{k: v for k, v in u.items() if k not in ("eq", "rr")} for u in case["univ"]])
+    if any(u.get("fails") for u in case["univ"]):
+        yield dict(case, univ=[{k: v for k, v in u.items() if k != "fails"} for u in case["univ"]])
+        for i, u in enumerate(case["univ"]):
+            if u.get("fails"):
+                yield dict(case, univ=[{k: v for k, v in w.items() if k != "fails" or j != i}
+                                       for j, w in enumerate(case["univ"])])
+    if any(u.get("delay") for u in case["univ"]):
+        yield dict(case, univ=[{k: v for k, v in u.items() if k != "delay"} for u in case["univ"]])
     if any(u["blocks"] for u in case["univ"]):
         yield dict(case, univ=[dict(u, blocks=0) for u in case["univ"]])
     if any(u["key"] not in (0, 1) for u in case["univ"]):
@@ -480,11 +750,13 @@ def neighbours(case, rng):
             yield c
         return
     for src in SRC_KINDS:
-        for form in FORMS:
-            yield dict(case, src=src if case.get("args") != "elems" else "tuple", form=form)
+        for form in FORMS + FORMS_AIO:
+            yield normalize(dict(case, src=src if case.get("args") != "elems" else "tuple", form=form))
     for rev in (0, 1):
         for kn in (0, 1):
             yield dict(case, rev=rev, key_none=kn)
+    for fnk in FN_KINDS + FN_MORE:
+        yield normalize(dict(case, fnk=fnk))
     for _ in range(24):
         c = gen_collection(rng, case["helper"])
         yield c
@@ -494,10 +766,22 @@ def neighbours(case, rng):
 
 def signature(case, v):
     if case["helper"] == "aretry":
-        return "aretry/%s" % v["spec"]
+        return "aretry/%s%s" % ("asyncio/" if case.get("form") in FORMS_AIO else "", v["spec"])
     if case.get("bad_kw") == 2:
         return "amax-amin/default-kw/%s" % v["spec"]      # one signature for the keyword, whatever the input
-    return "%s/%s/%s" % (case["helper"], SRC_MODEL.get(case["src"], case["src"]), v["spec"])
+    # (computed on the UNSHRUNK case: only dimensions that change what the code does are named - the engine, an eager
+    # attribute-happy replacement installed by asynq.mock.patch, a key that raises when the verdict is about an exception)
+    parts = [case["helper"]]
+    if case["form"] in FORMS_AIO:
+        parts.append("asyncio")
+    if case.get("fnk") in FN_MOCK:
+        parts.append("fn=mock")
+    if any(case["univ"][t].get("fails") for t in case["items"]) and "Exc.user" in str(v.get("detail", "")):
+        parts.append("key-raises")
+    if case.get("mid") and case["mid"][1] == "COLLECT_PERF_STATS":
+        parts.append("mid-flight=COLLECT_PERF_STATS")
+    parts += [SRC_MODEL.get(case["src"], case["src"]), v["spec"]]
+    return "/".join(parts)
 
 
 # ---------------------------------------------------------------------------------------------------
@@ -740,6 +1024,17 @@ class FnLen(object):
         return 0
 
 
+def fn_auto(f):
+    """does the function object answer ANY attribute name with a truthy callable (a MagicMock does)?  measured"""
+    if f is None:
+        return 0
+    try:
+        a = getattr(f, "harness_probe_no_such_attribute")
+        return 1 if (a and callable(a) and a()) else 0
+    except Exception:
+        return 0
+
+
 def fn_token(f):
     """the function object as the model sees it: None, or (bool(f), f == None) as MEASURED"""
     if f is None:
@@ -821,6 +1116,7 @@ def case_hash(case):
 
 
 def run_case(case):
+    import asyncio
     import threading
     import time
 
@@ -856,6 +1152,17 @@ def run_case(case):
             super(HItem, self).__init__(st.cur)
             self.val = val
 
+    sv = asynq.AsyncScopedValue(0)
+    st.sv = sv
+    st.ctx_log = []
+
+    class CountingContext(asynq.AsyncContext):
+        def resume(self):
+            st.ctx_log.append(1)
+
+        def pause(self):
+            st.ctx_log.append(-1)
+
     def call(fn, args, kwargs):
         """the ways of invoking an async function"""
         form = case["form"]
@@ -863,6 +1170,62 @@ def run_case(case):
             return fn(*args, **kwargs)
         if form == "asynq":
             return fn.asynq(*args, **kwargs).value()
+        if form == "asyncio":
+            # under an asyncio event loop: no asynq scheduler, no batch
+            return asyncio.run(fn.asyncio(*args, **kwargs))
+        if form == "asyncio_nested":
+            @asynq.asynq()
+            def aio_outer():
+                r = yield fn.asynq(*args, **kwargs)
+                return r
+            return asyncio.run(aio_outer.asyncio())
+        if form == "acall":
+            # asynq.async_call: "use this if you are not sure if fn is async or not"
+            @asynq.asynq()
+            def acall_outer():
+                r = yield asynq.async_call.asynq(fn, *args, **kwargs)
+                return r
+            return acall_outer()
+        if form == "ctx":
+            # tools.call_with_context: the helper runs inside an AsyncContext that is paused / resumed around its yields
+            r = tools.call_with_context(CountingContext(), fn, *args, **kwargs)
+            if sum(st.ctx_log) != 0 or not st.ctx_log:
+                raise HarnessObjectError("context left %r" % (st.ctx_log,))
+            return r
+        if form == "scoped":
+            # inside an AsyncScopedValue override: every per-element call must see the overridden value
+            @asynq.asynq()
+            def scoped_outer():
+                with sv.override(7):
+                    r = yield fn.asynq(*args, **kwargs)
+                return r
+            return scoped_outer()
+        if form == "otherthread":
+            # another thread is in the middle of a helper invocation of its own (stuck inside its first key call)
+            started, release, other = threading.Event(), threading.Event(), []
+
+            @asynq.asynq()
+            def slow(x):
+                if x == 0:
+                    started.set()
+                    release.wait(20)
+                return x + 1
+
+            def other_target():
+                try:
+                    other.append(tools.asorted([2, 0, 1], key=tools.deduplicate()(slow)))
+                except BaseException as e:
+                    other.append(e)
+            th = threading.Thread(target=other_target)
+            th.start()
+            started.wait(20)
+            try:
+                return fn(*args, **kwargs)
+            finally:
+                release.set()
+                th.join()
+                if other != [[0, 1, 2]]:
+                    raise HarnessObjectError("the other thread got %r" % (other,))
         if form == "thread":
             # a fresh thread: its own scheduler state
             box = []
@@ -945,18 +1308,106 @@ def run_case(case):
         keyobjs[id(o)] = ko
         keyval[id(ko)] = kv
 
+    fnk = case.get("fnk", "plain")
+    aio = case["form"] in FORMS_AIO
+    is_mock = fnk in FN_MOCK
+    # an EAGER function runs its body inside function.asynq(elt); @async_proxy is one under the asynq scheduler only
+    # (a replacement given as a plain function is wrapped by asynq.mock into an @asynq(sync_fn=..) function and, being
+    # reached through the class, is re-bound on every access: its .asynq is the ordinary lazy one)
+    eager = (is_mock and fnk != "mockfn") or (fnk == "proxy" and not aio)
+    raised = {}
+    keep = []
+
+    def eff_blocks(u):
+        """does the per-element call suspend?  a mock replacement cannot; a proxy under asyncio returns a ConstFuture"""
+        if is_mock or (fnk == "proxy" and aio):
+            return 0
+        return u["blocks"]
+
+    def maybe_fail(x):
+        """the key / predicate raises for this element (also the synchronous equivalent does)"""
+        c = attr[id(x)].get("fails")
+        if c:
+            e = EXC[c]("bad element")
+            raised[id(e)] = (c, 0)
+            keep.append(e)
+            raise e
+
     def sync_key(x):
+        maybe_fail(x)
         return keyobjs[id(x)]
 
-    fnk = case.get("fnk", "plain")
+    def sync_pred(x):
+        maybe_fail(x)
+        return pred_obj(x)
+
+    mid = case.get("mid")
+    dbg_saved = {}
+
+    def pre(x):
+        """start of every per-element body"""
+        st.calls += 1
+        if mid and st.calls == mid[0] + 1:
+            # something switched on / collected in MID-FLIGHT: after some per-element calls were issued or ran
+            if mid[1] == "gc":
+                import gc
+                gc.collect()
+            else:
+                o = asynq.debug.options
+                if mid[1] not in dbg_saved:
+                    dbg_saved[mid[1]] = getattr(o, mid[1])
+                setattr(o, mid[1], not dbg_saved[mid[1]])
+        if case["form"] == "scoped" and sv.get() != 7:
+            raise HarnessObjectError("scoped value lost")
+
+    @asynq.asynq()
+    def tick():
+        return None
+
+    def waits(x):
+        """what a lazy body yields before it ends"""
+        u = attr[id(x)]
+        if not eff_blocks(u):
+            return []
+        if aio:
+            # an event-loop round trip: a gathered child (batch items are refused under asyncio)
+            return [lambda: [tick.asynq()]] * (1 + u.get("delay", 0))
+        return [blocker]
+
+    dbi = case.get("dbi", 0) and not aio
+    dbi_name = "c14-%d-%x" % (case.get("id", 0), id(st))
+    dbi_items = []
+
+    def blocker(val=None):
+        """what a per-element call blocks on: an item of the harness batch, or (dbi) the library's own DebugBatchItem"""
+        if not dbi:
+            return HItem(val)
+        it = batching.DebugBatchItem(dbi_name, val)
+        dbi_items.append(it)
+        return it
+
+    def dbi_flushes():
+        """sizes of the flushed debug batches the per-element calls blocked on, in batch order"""
+        by = {}
+        for it in dbi_items:
+            if it.batch.is_flushed():
+                by.setdefault(it.batch.index, []).append(it)
+        return [len(by[k]) for k in sorted(by)]
 
     def make_fn(result_of):
         """the async key / predicate as an object of the kind the case asks for"""
         @asynq.asynq()
         def lazy_fn(x):
-            st.calls += 1
-            if attr[id(x)]["blocks"]:
-                yield HItem()
+            pre(x)
+            for w in waits(x):
+                yield w()
+            maybe_fail(x)
+            return result_of(x)
+
+        def direct(x):
+            """the body of an eager function"""
+            pre(x)
+            maybe_fail(x)
             return result_of(x)
 
         if fnk == "plain":
@@ -973,26 +1424,104 @@ def run_case(case):
             # an eager async function: the body runs while the request is issued and hands back a future
             @asynq.async_proxy()
             def eager_fn(x):
-                st.calls += 1
-                if attr[id(x)]["blocks"]:
-                    return HItem(result_of(x))
-                return ConstFuture(result_of(x))
+                r = direct(x)
+                if eff_blocks(attr[id(x)]):
+                    return blocker(r)
+                return ConstFuture(r)
             return eager_fn
-        if fnk == "method":
+        if fnk in ("method", "methodcopy", "bindercopy"):
             class Table(object):
                 def __len__(self):
                     return 0
 
                 @asynq.asynq()
                 def look(self, x):
-                    st.calls += 1
-                    if attr[id(x)]["blocks"]:
-                        yield HItem()
+                    pre(x)
+                    for w in waits(x):
+                        yield w()
+                    maybe_fail(x)
                     return result_of(x)
+            if fnk == "methodcopy":
+                import copy
+                return copy.copy(Table()).look       # the wrapper bound to a COPY of the instance
+            if fnk == "bindercopy":
+                import copy
+                return copy.copy(Table().look)       # a copy of the bound wrapper itself
             return Table().look
+        if fnk in ("static", "classm"):
+            class Holder(object):
+                @asynq.asynq()
+                @staticmethod
+                def slook(x):
+                    pre(x)
+                    for w in waits(x):
+                        yield w()
+                    maybe_fail(x)
+                    return result_of(x)
+
+                @asynq.asynq()
+                @classmethod
+                def clook(cls, x):
+                    pre(x)
+                    for w in waits(x):
+                        yield w()
+                    maybe_fail(x)
+                    return result_of(x)
+            return Holder.slook if fnk == "static" else Holder().clook
+        if fnk == "aiofn":
+            # an explicit asyncio version (asyncio_fn=): used under an event loop instead of the generator
+            async def coro(x):
+                pre(x)
+                u = attr[id(x)]
+                if eff_blocks(u):
+                    for _ in range(1 + u.get("delay", 0)):
+                        await asyncio.sleep(0)
+                maybe_fail(x)
+                return result_of(x)
+
+            @asynq.asynq(asyncio_fn=coro)
+            def with_aio(x):
+                pre(x)
+                for w in waits(x):
+                    yield w()
+                maybe_fail(x)
+                return result_of(x)
+            return with_aio
+        if fnk == "dedup":
+            return tools.deduplicate()(lazy_fn)
+        if fnk == "alru":
+            return tools.alru_cache(maxsize=100000)(lazy_fn)
+        if fnk == "wrapped":
+            # asynq.make_async_decorator: "for implementing decorators that wrap async functions"
+            return asynq.make_async_decorator(lazy_fn, lambda *a, **k: lazy_fn.asynq(*a, **k), "harness_wrapper")
+        if is_mock:
+            # the library's own way to stub an async function: asynq.mock.patch attaches .asynq / .asyncio
+            class Service(object):
+                @asynq.asynq()
+                @staticmethod
+                def score(x):
+                    raise HarnessObjectError("the real backend was reached")
+
+            class CallableObj(object):
+                def __call__(self, x):
+                    return direct(x)
+            if fnk == "mock":
+                cm = asynq.mock.patch.object(Service, "score")
+            elif fnk == "mockspec":
+                cm = asynq.mock.patch.object(Service, "score", autospec=True)
+            elif fnk == "mockfn":
+                cm = asynq.mock.patch.object(Service, "score", lambda x: direct(x))
+            else:
+                cm = asynq.mock.patch.object(Service, "score", CallableObj())
+            m = cm.__enter__()
+            cleanup.append(lambda: cm.__exit__(None, None, None))
+            if fnk in ("mock", "mockspec"):
+                m.side_effect = direct
+            return Service.score
         raise ValueError(fnk)
 
-    akey = make_fn(sync_key)
+    cleanup = []
+    akey = make_fn(lambda x: keyobjs[id(x)])
     apred = make_fn(pred_obj)
 
     elems = [objs[t] for t in case["items"]]
@@ -1035,14 +1564,14 @@ def run_case(case):
             return call(tools.amap, (akey, make_src()), {})
         if helper == "afilter":
             if sync:
-                return list(filter(None if fn_none else pred_obj, make_src()))
+                return list(filter(None if fn_none else sync_pred, make_src()))
             f = None if fn_none else apred
             if style == "kw":
                 return call(tools.afilter, (), {"function": f, "sequence": make_src()})
             return call(tools.afilter, (f, make_src()), {})
         if helper == "afilterfalse":
             if sync:
-                return list(itertools.filterfalse(pred_obj, make_src()))
+                return list(itertools.filterfalse(sync_pred, make_src()))
             if style == "kw":
                 return call(tools.afilterfalse, (), {"function": apred, "sequence": make_src()})
             return call(tools.afilterfalse, (apred, make_src()), {})
@@ -1076,61 +1605,77 @@ def run_case(case):
         if helper == "asift":
             if sync:
                 seq = list(make_src())
-                return ([x for x in seq if pred_obj(x)], [x for x in seq if not pred_obj(x)])
+                return ([x for x in seq if sync_pred(x)], [x for x in seq if not sync_pred(x)])
             if style == "kw":
                 return call(tools.asift, (), {"pred": apred, "items": make_src()})
             return call(tools.asift, (apred, make_src()), {})
         raise ValueError(helper)
 
+    def outcome(thunk):
+        """result or exception of an invocation as an observation (the scripted exceptions of a key may derive from
+        BaseException only; anything else that is not an Exception - the worker's timeout - is not an observation)"""
+        try:
+            return enc(thunk())
+        except BaseException as e:
+            if not isinstance(e, Exception) and id(e) not in raised:
+                raise
+            return exc_res(e, raised)
+
+    import io
+    sink = (asynq.debug.stdout, asynq.debug.stderr)
+    asynq.debug.stdout = io.StringIO()       # the DUMP_* options write there; keep it out of the worker's pipe
+    asynq.debug.stderr = io.StringIO()
     try:
-        builtin = enc(invoke(True))
-    except Exception as e:
-        builtin = exc_res(e)
+        builtin = outcome(lambda: invoke(True))
 
-    # ---- what happened before on this thread, with the same function objects -----------------------
-    warm = case.get("warm", 0)
-    if warm == 1:
-        try:
-            invoke(False)
-        except Exception:
-            pass
-    elif warm == 2:
-        try:
-            call(tools.amax, ((),), {"key": akey})          # ValueError after the (empty) round of key calls
-        except ValueError:
-            pass
-        try:
-            call(tools.asift, (apred, NotIterable()), {})    # TypeError before anything is called
-        except TypeError:
-            pass
-    elif warm == 3:
-        @asynq.asynq()
-        def bad(x):
-            yield HItem()
-            if x == 1:
-                raise E1("warm-up")
-            return x
-        try:
-            call(tools.amap, (bad, [0, 1, 2]), {})
-        except E1:
-            pass
+        # ---- what happened before on this thread, with the same function objects -----------------------
+        warm = case.get("warm", 0)
+        if warm == 1:
+            outcome(lambda: invoke(False))
+        elif warm == 2:
+            try:
+                call(tools.amax, ((),), {"key": akey})          # ValueError after the (empty) round of key calls
+            except ValueError:
+                pass
+            try:
+                call(tools.asift, (apred, NotIterable()), {})    # TypeError before anything is called
+            except TypeError:
+                pass
+        elif warm == 3:
+            @asynq.asynq()
+            def bad(x):
+                yield HItem()
+                if x == 1:
+                    raise E1("warm-up")
+                return x
+            try:
+                call(tools.amap, (bad, [0, 1, 2]), {})
+            except E1:
+                pass
 
-    # the function object as Python sees it NOW (a memo table may have become non-empty)
-    fobj = None if (fn_none if helper == "afilter" else key_none) else (apred if helper in ("afilter", "afilterfalse", "asift") else akey)
-    ftok = fn_token(fobj)
+        # the function object as Python sees it NOW (a memo table may have become non-empty)
+        fobj = None if (fn_none if helper == "afilter" else key_none) else (apred if helper in ("afilter", "afilterfalse", "asift") else akey)
+        ftok = fn_token(fobj)
+        fauto = fn_auto(fobj)
 
-    st.cur, st.flushes, st.calls = None, [], 0
-    try:
-        res = enc(invoke(False))
-    except Exception as e:  # the outcome of the invocation, not a harness failure
-        res = exc_res(e)
-    flushes, calls = list(st.flushes), st.calls
+        st.cur, st.flushes, st.calls, st.ctx_log = None, [], 0, []
+        del dbi_items[:]
+        res = outcome(lambda: invoke(False))   # the outcome of the invocation, not a harness failure
+        flushes, calls = (dbi_flushes() if dbi else list(st.flushes)), st.calls
+    finally:
+        asynq.debug.stdout, asynq.debug.stderr = sink
+        for o, v in dbg_saved.items():
+            setattr(asynq.debug.options, o, v)
+        for f in reversed(cleanup):
+            f()
 
     # ---- protocol lines --------------------------------------------------------------------------
     lines = ["(case tools %d %s)" % (case["id"], helper)]
     lines.append("(univ %s)" % " ".join(
-        "(%d %d %d %s %d)" % (u["key"], u["pred"], u["truthy"], "none" if u["ord"] is None else u["ord"], u["blocks"])
+        "(%d %d %d %s %d %s %d)" % (u["key"], u["pred"], u["truthy"], "none" if u["ord"] is None else u["ord"],
+                                   eff_blocks(u), u.get("fails") or "none", u.get("delay", 0))
         for u in case["univ"]))
+    lines.append("(ext %s %d %d)" % ("asyncio" if aio else "asynq", 1 if eager else 0, fauto))
     items = "(%s)" % " ".join(str(t) for t in case["items"])
     srcx = "(src %s %s)" % (SRC_MODEL[case["src"]], items)
     if helper == "amap":
@@ -1164,6 +1709,18 @@ def run_case(case):
              "flushes=%d" % min(len(flushes), 3),
              "fn-object=" + (fnk if fobj is not None else "None"), "fn-token=" + ftok.replace(" ", "_"),
              "argstyle=" + style, "warm=%d" % warm, "keyk=%d" % keyk]
+    feats.append("engine=" + ("asyncio" if aio else "asynq"))
+    feats.append("fn-eager=%d" % (1 if eager else 0))
+    if fauto:
+        feats.append("fn-answers-any-attribute")
+    nf = sum(1 for t in case["items"] if case["univ"][t].get("fails"))
+    feats.append("failing-keys=%d" % min(nf, 3))
+    if nf >= 2 and len(set(case["univ"][t]["fails"] for t in case["items"] if case["univ"][t].get("fails"))) >= 2:
+        feats.append("failing-keys-of-two-classes")
+    if mid:
+        feats.append("mid-flight=" + mid[1])
+    if dbi:
+        feats.append("blocks-on-DebugBatchItem")
     if ties:
         feats.append("ties")
     if len(toks) < n:
@@ -1201,8 +1758,22 @@ def run_retry(case, st, HItem, call, asynq, tools, time, ConstFuture, ErrorFutur
     keep = []
     A, B = object(), object()
     ok_args = [True]
+    import asyncio  # noqa: F401  (the call forms use it)
     body_kind = case.get("body", "gen")
+    aio = case["form"] in FORMS_AIO
     blocking = 1 if (case["blocking"] and body_kind != "plain") else 0   # a plain function cannot block
+    if aio and BODY_MODEL[body_kind] == "eager":
+        blocking = 0                           # batch items are refused under asyncio: an eager body hands back a ConstFuture
+    mid = case.get("mid")
+    dbg_saved = {}
+
+    @asynq.asynq()
+    def tick():
+        return None
+
+    def wait():
+        """what a lazy blocking body yields: the harness batch, or (asyncio) an event-loop round trip"""
+        return [tick.asynq()] if aio else HItem()
 
     def attempt(a, b):
         """one run of the body up to the point where it knows what to do: ('ret', v) or ('raise', exception)"""
@@ -1210,6 +1781,16 @@ def run_retry(case, st, HItem, call, asynq, tools, time, ConstFuture, ErrorFutur
         st.calls += 1
         if a is not A or b is not B:
             ok_args[0] = False
+        if mid and i == mid[0]:
+            # something switched on / collected in MID-FLIGHT, between two attempts
+            if mid[1] == "gc":
+                import gc
+                gc.collect()
+            else:
+                o = asynq.debug.options
+                if mid[1] not in dbg_saved:
+                    dbg_saved[mid[1]] = getattr(o, mid[1])
+                setattr(o, mid[1], not dbg_saved[mid[1]])
         script = phase["script"]
         step = script[i] if i < len(script) else ["ret", 0]
         if step[0] == "ret":
@@ -1232,7 +1813,7 @@ def run_retry(case, st, HItem, call, asynq, tools, time, ConstFuture, ErrorFutur
         def body(a, b=None):
             what, x = attempt(a, b)
             if blocking:
-                yield HItem()
+                yield wait()
             if what == "raise":
                 raise x
             return x
@@ -1243,12 +1824,12 @@ def run_retry(case, st, HItem, call, asynq, tools, time, ConstFuture, ErrorFutur
             if what == "raise":
                 raise x
             return x
-    elif body_kind == "method":
+    elif body_kind in ("method", "methodcopy"):
         @asynq.asynq()
         def body(self, a, b=None):
             what, x = attempt(a, b)
             if blocking:
-                yield HItem()
+                yield wait()
             if what == "raise":
                 raise x
             return x
@@ -1277,7 +1858,8 @@ def run_retry(case, st, HItem, call, asynq, tools, time, ConstFuture, ErrorFutur
         listed = BaseException if case.get("single_cls") else (BaseException,)
     elif len(listed) == 1 and case.get("single_cls"):
         listed = listed[0]
-    sleep_arg = 0.0125
+    # argstyle "dflt": aretry(exception_cls) alone - max_tries and sleep are the documented defaults (10, 0.05)
+    sleep_arg = 0.05 if case.get("argstyle") == "dflt" else 0.0125
     sleeps = [0]
 
     def fake_sleep(x):
@@ -1285,23 +1867,56 @@ def run_retry(case, st, HItem, call, asynq, tools, time, ConstFuture, ErrorFutur
 
     style = case.get("argstyle", "std")
 
+    shared = case.get("shared", 0)
+    decoy_runs = [0]
+
+    @asynq.asynq()
+    def decoy_body(a, b=None):
+        decoy_runs[0] += 1
+        raise EXC[case["listed"][0] if case["listed"] else 3]("decoy")
+
+    def run_decoy(decoy):
+        """ANOTHER function decorated by the same decorator object, run until it gives up"""
+        try:
+            decoy(A, b=B)
+        except BaseException as e:
+            if not isinstance(e, (E1, E2, E3, B5, B6)):
+                raise
+        st.cur, st.flushes, sleeps[0] = None, [], 0
+
     def decorate():
         if style == "pos":
             deco = tools.aretry(listed, case["max"], sleep_arg)
+        elif style == "dflt":
+            deco = tools.aretry(listed)
         elif style == "kw":
             deco = tools.aretry(exception_cls=listed, max_tries=case["max"], sleep=sleep_arg)
         else:
             deco = tools.aretry(listed, max_tries=case["max"], sleep=sleep_arg)
-        if body_kind == "method":
+        decoy = deco(decoy_body) if shared == 1 else None     # one decorator OBJECT applied to several functions
+        if shared == 1:
+            run_decoy(decoy)
+        if body_kind in ("method", "methodcopy"):
             svc = type("Svc", (object,), {"__len__": lambda self: 0, "fetch": deco(body)})()
-            return svc.fetch
-        return deco(body)
+            if body_kind == "methodcopy":
+                import copy
+                svc = copy.copy(svc)
+            w = svc.fetch
+        else:
+            w = deco(body)
+        if shared == 2:
+            decoy = deco(decoy_body)
+        return w, decoy
 
+    import io
     real_sleep = time.sleep
     time.sleep = fake_sleep   # scripted clock: aretry must not really sleep, and its sleeps are counted
+    sink = (asynq.debug.stdout, asynq.debug.stderr)
+    asynq.debug.stdout = io.StringIO()
+    asynq.debug.stderr = io.StringIO()
     try:
         try:
-            wrapped = decorate()
+            wrapped, decoy = decorate()
             if case.get("warm"):
                 # a previous invocation of the SAME decorated function on this thread
                 phase["script"] = case["warm"]
@@ -1313,6 +1928,9 @@ def run_retry(case, st, HItem, call, asynq, tools, time, ConstFuture, ErrorFutur
                 phase["script"] = case["script"]
                 st.cur, st.flushes, st.calls, sleeps[0] = None, [], 0, 0
                 raised.clear()
+            if shared == 2:
+                run_decoy(decoy)
+            st.ctx_log = []
             v = call(wrapped, (A,), {"b": B})
             if v is None:
                 res = "(ok none)"
@@ -1328,9 +1946,14 @@ def run_retry(case, st, HItem, call, asynq, tools, time, ConstFuture, ErrorFutur
             res = exc_res(e, raised)
     finally:
         time.sleep = real_sleep
+        asynq.debug.stdout, asynq.debug.stderr = sink
+        for o, val in dbg_saved.items():
+            setattr(asynq.debug.options, o, val)
     if not ok_args[0]:
         res = "(raised other ArgumentsNotForwarded)"
-    lines = ["(case tools %d aretry)" % case["id"], "(univ)"]
+    if shared and decoy_runs[0] != max(case["max"], 1) and case["max"] > 0 and case["listed"]:
+        res = "(raised other DecoyRan-%d)" % decoy_runs[0]
+    lines = ["(case tools %d aretry)" % case["id"], "(univ)", "(ext %s 0 0)" % ("asyncio" if aio else "asynq")]
     lines.append("(call aretry %d (%s) (script %s) %d %s)" % (
         case["max"], " ".join(str(c) for c in case["listed"]),
         " ".join("(%s %d)" % (s[0], s[1]) for s in case["script"]), blocking, BODY_MODEL[body_kind]))
@@ -1338,11 +1961,14 @@ def run_retry(case, st, HItem, call, asynq, tools, time, ConstFuture, ErrorFutur
     lines.append("(end)")
     feats = ["helper=aretry", "form=" + case["form"], "max_tries=%d" % min(case["max"], 7), "runs=%d" % min(st.calls, 7),
              "blocking=" + ("all" if blocking else "none"), "body=" + body_kind, "argstyle=" + style,
+             "engine=" + ("asyncio" if aio else "asynq"), "shared-decorator=%d" % shared,
              "outcome=" + (res.split()[1].rstrip(")") if res.startswith("(raised") else "ok")]
     if case["max"] > 10:
         feats.append("max_tries>10")
     if case.get("warm"):
         feats.append("second-use")
+    if mid:
+        feats.append("mid-flight=" + mid[1])
     nontrivial = None
     if st.calls >= 2:
         nontrivial = case_hash(case)
